@@ -249,10 +249,14 @@ claim("C16", "proof",
 claim("C17", "proof",
       "Coq theorems about the control flow of Solver::findRoot over an abstract evaluator and abstract arithmetic "
       "(so binary32 is one instance): residual = expression at the final assignment, masked variables never returned, "
-      "absent variables unchanged, at most gas-1 gradient evaluations, termination for every value / gradient function; "
+      "absent variables unchanged, at most gas-1 gradient evaluations, termination for every value / gradient function under the "
+      "single arithmetic hypothesis that halving a finite step reaches zero (the earlier hypothesis 'a small enough step no longer "
+      "moves the point' is false for signed zeros: the matching hang in the real code was found and repaired, and the old loop is "
+      "refuted in Coq on a sign-magnitude arithmetic); "
       "tie: the trace of evaluator calls recorded by the LIBFIVE_VERIF hook is replayed through the extracted model, which "
       "must issue the same setVar arguments, consume the whole trace and return the same result; oracle: the four clauses "
-      "on the implementation under a 10 s watchdog (NaN gradients, infinite residuals, zero gradients, gas 0/1/2).",
+      "on the implementation under a 10 s watchdog (NaN gradients, infinite residuals, zero gradients, gas 0/1/2, signed zeros, "
+      "long-lived evaluators holding stale values or the zero of the other sign), through the evaluator overload and the Tree overload.",
       "Trusted: Coq kernel, extraction, replay driver (adopts the recorded trial point when within 1e-4 relative: last-bit "
       "effects of fma contraction are not control flow), trace hook, harness.",
       "Coq proof (loop invariants over fuel-indexed model) + trace-replay correspondence",
